@@ -1325,7 +1325,7 @@ class LogixDriver(CIPDriver):
         try:
             if tag.endswith("}") and "{" in tag:
                 tag, _tmp = tag.split("{")
-                elements = int(_tmp[:-1])
+                elements = util.decimal(_tmp[:-1])
                 implicit_element = False
             else:
                 elements = 1
@@ -1339,7 +1339,7 @@ class LogixDriver(CIPDriver):
             if base.startswith("Program:"):
                 base = f"{base}.{attrs.pop(0)}"
 
-            if len(attrs) and attrs[-1].isdigit():
+            if len(attrs) and attrs[-1].isascii() and attrs[-1].isdigit():
                 bit = int(attrs.pop(-1))
                 tag = base if not len(attrs) else f"{base}.{'.'.join(attrs)}"
 
